@@ -989,4 +989,8 @@ LEVEL_NOTE = ("Trusted: Coq kernel; hand transcription of html_to_nodes into coq
               "the directive spelling is checked by the metamorphic search on the implementation, not proved (the directive "
               "classes are not modelled); gen/pysrc.py + gen/c17_src.py and the domain mapping coq/Html/NodesPrims.v (docutils node "
               "constructors, renderer flags, regex calls as the regenerated table-driven functions) are trusted; the _src theorems "
-              "are per loop iteration, no global equality of the regenerated html_to_nodes with the hand-written model is claimed.")
+              "for img / admonition are per loop iteration on any well-formed store (the loop itself - threading of the store, appending "
+              "to nodes_list, the early return - is regenerated and exercised by correspondence, but no theorem composes the "
+              "iterations; C17_passthrough_src is about the whole regenerated function); tokenize_src starts from the regenerated "
+              "Tree.__init__ / clear. Search: histories (earlier fragments / documents leaving the tokenizer in a non-initial state) "
+              "and near-miss class / element names are generated since rounds 4-5.")
